@@ -566,8 +566,8 @@ class HealpixLandscape(StokesLandscape):
         self.nside = nside
 
     def tree_flatten(self):  # type: ignore[no-untyped-def]
+        # the shape is derived from nside by the constructor, which does not accept it
         aux_data = {
-            'shape': self.shape,
             'dtype': self.dtype,
             'stokes': self.stokes,
             'nside': self.nside,
@@ -604,8 +604,8 @@ class FrequencyLandscape(HealpixLandscape):
         self.shape = (len(frequencies), 12 * nside**2)
 
     def tree_flatten(self):  # type: ignore[no-untyped-def]
+        # the shape is derived from nside and frequencies by the constructor
         aux_data = {
-            'shape': self.shape,
             'dtype': self.dtype,
             'stokes': self.stokes,
             'nside': self.nside,
